@@ -278,7 +278,7 @@ func c07Function(c *Ctx, fn *ssa.Function) {
 				}
 				ok := false
 				for _, a := range neqAlts {
-					if edgeHasFact(inc.Pred, inc.Blk, a) {
+					if inc.hasFact(a) {
 						ok = true
 					}
 				}
